@@ -44,6 +44,10 @@ def concrete(t: T, env: dict, funcs: dict | None = None):
             return {ev(k): ev(v) for k, v in a[0]}
         if op in ("modconst", "assume"):
             return ev(a[1])
+        if op == "listappend":
+            return list(ev(a[0])) + [ev(a[1])]
+        if op == "listextend":
+            return list(ev(a[0])) + list(ev(a[1]))
         if op == "not":
             return not ev(a[0])
         if op == "and":
@@ -143,6 +147,9 @@ def concrete(t: T, env: dict, funcs: dict | None = None):
                     return set(ev(args[0])) if args else set()
                 if n == "builtins.abs":
                     return abs(ev(args[0]))
+                if n in ("builtins.list", "builtins.frozenset", "builtins.tuple", "builtins.reversed", "builtins.sorted"):
+                    fn = {"list": list, "frozenset": frozenset, "tuple": tuple, "reversed": reversed, "sorted": sorted}[n.split(".")[1]]
+                    return fn(ev(args[0])) if args else fn()
                 if n in ("builtins.max", "builtins.min"):
                     vals = [ev(y) for y in args]
                     return (max if n.endswith("max") else min)(*vals)
@@ -154,7 +161,7 @@ def concrete(t: T, env: dict, funcs: dict | None = None):
                 m = f.args[1]
                 if isinstance(recv, dict) and m in ("keys", "get", "values", "items"):
                     return getattr(recv, m)(*[ev(y) for y in args])
-                if isinstance(recv, (set, frozenset)) and m in ("issubset", "issuperset"):
+                if isinstance(recv, (set, frozenset)) and m in ("issubset", "issuperset", "isdisjoint"):
                     return getattr(recv, m)(*[ev(y) for y in args])
                 if isinstance(recv, str) and m in ("lower", "upper", "startswith", "endswith", "format", "join", "strip"):
                     return getattr(recv, m)(*[ev(y) for y in args], **{k: ev(v) for k, v in kwargs})
@@ -165,6 +172,12 @@ def concrete(t: T, env: dict, funcs: dict | None = None):
             raise Unmodelled(f.op)
         if op == "dictkeys":
             return ev(a[0]).keys()
+        if op == "attr":
+            base = ev(a[0])
+            try:
+                return getattr(base, a[1])
+            except AttributeError:
+                raise Unmodelled("attr " + a[1])
         raise Unmodelled(op)
 
     return ev(t)
